@@ -29,7 +29,9 @@ class UnknownField(Exception):
 
 
 def _b(s: str) -> bytes:
-    return s.encode("utf-8", "surrogateescape")
+    if any(0xD800 <= ord(c) <= 0xDFFF for c in s):
+        raise Unmodelled("lone surrogate in string")
+    return s.encode("utf-8")
 
 
 def _fields(h):
@@ -162,6 +164,8 @@ def refresh_host(q: dict):
 def _str(v, what):
     if not isinstance(v, str):
         raise Unmodelled(f"{what} is not a string (coercion)")
+    if any(0xD800 <= ord(c) <= 0xDFFF for c in v):
+        raise Unmodelled("lone surrogate in string")
     return v
 
 
